@@ -18,10 +18,56 @@ CMP = ['=', '<>', '<', '>', '<=', '>=']
 ALIASES = ['p', 'q', 'r', 's', 'u', 'v']
 
 
+# ----------------------------------------------------------------------------- names that need quoting (round 6)
+# The generators write LOGICAL words (tables ta…tf, columns id x y, aliases p q r s u v, a b, w); a naming maps some of them
+# to the names the engines really use.  `rename` rewrites a generated text word by word into back-quoted real names, the
+# executor's World creates its tables with the same real names.  Naming 0 is the identity.
+NAMINGS = [
+    {},
+    # a dotted column name whose prefix is a usual alias and whose suffix is a sibling column
+    {'id': 'p.x'},
+    # … whose prefix is a table name; a dotted name that is nobody's qualifier
+    {'x': 'ta.y', 'y': 'a.b'},
+    # space, upper case, keywords, leading digit
+    {'id': 'my id', 'x': 'Upper X', 'y': 'order'},
+    {'id': 'select', 'x': '1st', 'y': 'x-y'},
+    # table names
+    {'ta': 'my tab', 'tb': 'tb.x', 'tc': 'Order', 'td': 'select', 'te': 'T e', 'tf': 'group'},
+    # aliases
+    {'p': 'a b', 'q': 'p.q', 'r': 'Select', 's': 'from', 'u': 'U', 'v': 'v-w', 'a': 'a.id', 'b': 'B b', 'w': 'with w'},
+    # everything at once
+    {'id': 'q.id', 'x': 'x y', 'y': 'y.x', 'ta': 'ta.id', 'tc': 't c', 'te': 'Te', 'p': 'p.x', 'q': 'Q', 's': 's.id', 'u': 'group'},
+]
+NAMING_FEATS = ['plain', 'dot-alias-col', 'dot-table-col', 'space-upper-keyword', 'keyword-digit-dash', 'table-names', 'alias-names', 'all']
+
+
+def bq(name):
+    return '`%s`' % name.replace('`', '``')
+
+
+def rename(text, naming):
+    """rewrite every logical word of a generated SQL text that the naming maps"""
+    import re
+    m = naming if isinstance(naming, dict) else NAMINGS[naming]
+    if not m or text is None:
+        return text
+    return re.sub(r'(?<![\w`])(%s)(?![\w`])' % '|'.join(sorted(map(re.escape, m), key=len, reverse=True)),
+                  lambda g_: bq(m[g_.group(1)]), text)
+
+
+def renamed(q, naming):
+    """the same query under a naming (contents / q.tables stay logical)"""
+    if not naming:
+        return q
+    return Q(q.kind, q.catalog, rename(q.body, naming), q.order_pos, rename(q.order_sql, naming), q.limit, q.offset, q.tables,
+             q.feats + ['naming:' + NAMING_FEATS[naming]], rename(q.ref_body, naming), naming)
+
+
 class Q:
     """a generated query: text with and without the top-level LIMIT/OFFSET, and what fixes the order"""
     def __init__(self, kind, catalog, body, order_pos=(), order_sql='', limit=None, offset=None, tables=(), feats=(),
-                 ref_body=None):
+                 ref_body=None, naming=0):
+        self.naming = naming
         self.kind, self.catalog, self.body = kind, catalog, body
         self.order_pos, self.order_sql, self.limit, self.offset = list(order_pos), order_sql, limit, offset
         self.tables = list(tables)
@@ -46,13 +92,13 @@ class Q:
     def to_json(self):
         return dict(kind=self.kind, catalog=self.catalog, body=self.body, order_pos=self.order_pos,
                     order_sql=self.order_sql, limit=self.limit, offset=self.offset,
-                    tables=[list(t) for t in self.tables], feats=self.feats, ref_body=self.ref_body)
+                    tables=[list(t) for t in self.tables], feats=self.feats, ref_body=self.ref_body, naming=self.naming)
 
     @staticmethod
     def from_json(d):
         return Q(d['kind'], d['catalog'], d['body'], [tuple(p) if isinstance(p, list) else p for p in d['order_pos']],
                  d['order_sql'], d['limit'], d['offset'], [tuple(t) for t in d['tables']], d.get('feats', ()),
-                 d.get('ref_body'))
+                 d.get('ref_body'), d.get('naming', 0))
 
 
 # ----------------------------------------------------------------------------- pieces
@@ -387,12 +433,22 @@ def gen_chain(rng, cat):
     quals = [a + '.' for a in als]
     frm = table_ref(rng, cat, ts[0], als[0])
     kinds = []
+    # 'same-key': every join points at the SAME-NAMED column of its direct predecessor (a.k, then b.k, …) through another
+    # column of its own, and no join is RIGHT / FULL: the value lists of the semi-join filters come from different tables
+    same_key = rng.random() < 0.3
+    key = rng.choice(['id', 'id', 'x'])
+    if same_key:
+        feats.append('same-key')
     for k in range(1, n):
         jk = rng.choice(['JOIN', 'INNER JOIN', 'LEFT JOIN', 'LEFT OUTER JOIN', 'RIGHT JOIN', 'RIGHT JOIN', 'FULL JOIN',
                          'FULL OUTER JOIN'])
+        if same_key:
+            jk = rng.choice(['JOIN', 'INNER JOIN', 'LEFT JOIN', 'LEFT OUTER JOIN'])
         kinds.append(jk)
         j = rng.randrange(k)
         c1, c2 = rng.choice(['id', 'id', 'id', 'x']), rng.choice(['id', 'id', 'id', 'x'])
+        if same_key:
+            j, c2, c1 = k - 1, key, rng.choice([c for c in COLS if c != key])
         on = '%s%s = %s%s' % ((quals[k], c1, quals[j], c2) if rng.random() < 0.5 else (quals[j], c2, quals[k], c1))
         if rng.random() < 0.15:
             on += ' AND %s%s %s %d' % (rng.choice([quals[k], quals[j]]), rng.choice(COLS), rng.choice(CMP), rng.randrange(3))
@@ -931,6 +987,14 @@ def gen_contents_dups(rng, tables, maxrows):
 
 
 def gen_query(rng):
+    """a query of any kind; about one in six is rewritten under a naming whose names need quoting"""
+    q = gen_query_plain(rng)
+    if rng.random() < 0.17:
+        return renamed(q, rng.randrange(1, len(NAMINGS)))
+    return q
+
+
+def gen_query_plain(rng):
     r = rng.random()
     cat = rng.choice(['names', 'names', 'default', 'project', 'api3'])
     if r < 0.07:
